@@ -29,6 +29,7 @@ def run(ctx):
     ctx.rule("keypair", "generate_keypair returns the generated key pair")
     ctx.rule("limit-exact", "every payload up to the maximum is accepted: the 65535-byte limit is applied exactly on both sides")
     ctx.trust("rustc MIR; snowfacts; spec/processing.py")
+    ctx.rule("context-binding", "HandshakeState::new: initialize(name); mix_hash(prologue); pre-message keys by role, initiator's list first — identical on both sides")
     for cfg in ctx.cfgs:
         F = ctx.facts[cfg]
         n1, tw = tokens.compare(ctx, cfg, "handshakestate::HandshakeState::_write_message", SP.WRITE, SP.SEMANTIC, "token-trace")
@@ -44,6 +45,9 @@ def run(ctx):
                    else "%s: writer does %s %s, reader does %s %s" % (arm, [x.split("::")[-1] for x in w], gw, [x.split("::")[-1] for x in r], gr), None, cfg)
         ctx.floor("mirror", len(set(tw) & set(tr)), 5, cfg)
         spec_templates.run_templates(ctx, cfg, names=("encrypt_and_mix_hash", "decrypt_and_mix_hash", "SymmetricState::split", "split_raw"))
+        # both parties must start from the same h: name, prologue and pre-message keys hashed in the same (initiator-first) order
+        from . import hsnew
+        hsnew.check_new(ctx, cfg)
         ctx.floor("progress-on-ok", errpath.check_progress_writes(ctx, cfg), 6, cfg)
         # complementarity from the extracted role tables
         k = 0
